@@ -127,7 +127,7 @@ def main():
         ],
         'checks': checks,
         'not_applicable': na,
-        'notes': 'All checks explore a bounded space exhaustively on the real code compiled from /repo (model-checking family: exhaustive enumeration of inputs, operation histories and schedules within stated bounds). known_findings.json lists genuine defects (all repaired by fix: commits so far); KNOWN_FINDINGS.txt holds the same entries as lines 'fixed: property=<id> <commit> <what failed>' (scripts/known.py list).',
+        'notes': 'All checks explore a bounded space exhaustively on the real code compiled from /repo (model-checking family: exhaustive enumeration of inputs, operation histories and schedules within stated bounds). known_findings.json lists genuine defects (all repaired by fix: commits so far); KNOWN_FINDINGS.txt holds the same entries as lines "fixed: property=<id> <commit> <what failed>" (scripts/known.py list).',
     }
     json.dump(m, open(os.path.join(root, 'MANIFEST.json'), 'w'), indent=1)
     # validate
